@@ -62,13 +62,14 @@ def create_ofdm_constraints(
 
         constraints.append(PAPRConstraint(max_papr=max_papr))
 
-    # Only add peak amplitude constraint if explicitly provided
-    if peak_amplitude is not None:
-        # Add explicit peak amplitude constraint if provided
-        constraints.append(PeakAmplitudeConstraint(peak_amplitude))
-
     # Add power constraint
     constraints.append(TotalPowerConstraint(total_power))
+
+    # Only add peak amplitude constraint if explicitly provided. It is applied after the power scaling: scaling a clipped
+    # signal up to the target power would push its peak above the limit again, whereas clipping the scaled signal keeps
+    # the power at or below the target and never increases the PAPR.
+    if peak_amplitude is not None:
+        constraints.append(PeakAmplitudeConstraint(peak_amplitude))
 
     return CompositeConstraint(constraints)
 
